@@ -6,6 +6,7 @@ import MpsProps.Src.SrcFrostSign
 import MpsProps.Src.SrcDoernerSign
 import MpsProps.Src.SrcCmpConfig
 import MpsProps.C01alg
+import MpsProps.C01tap
 import MpsProps.AlgGen
 /-
   C01 — property theorems: the algebra layer (MpsProps/C01alg.lean) is imported here once merged.
